@@ -133,11 +133,11 @@ def main(tier, n=None):
                        "printed relative paths are resolved against the invoking directory before comparison"]
     rng = common.rng_for("c17", common.base_seed())
     cases = []
-    reps = 1 if tier == "quick" else 12
+    reps = 4 if tier == "quick" else 30
     for rep_i in range(reps):
         for cmd in COMMANDS:
             if tier == "quick":
-                cw = [""] + rng.sample(CWDS[1:], 3)
+                cw = [""] + rng.sample(CWDS[1:], 4)
             else:
                 cw = list(CWDS)
             cases.append({"seed": rng.randrange(1 << 30), "cmd": cmd, "cwds": cw, "nruns": rng.choice([0, 1, 2, 3]), "leftovers": rng.random() < 0.6})
